@@ -28,7 +28,22 @@ def extra(res, cases, hv, driver):
                 if bad <= 2:
                     res.violation("level %d IR differs from level 3 IR for %r" % (lvl, c.src[:200]),
                                   {"case": c.to_json(), "level3": a, "level%d" % lvl: b})
-    return {"levels_above_3_compared": len(H) * 3, "levels_above_3_differences": bad}
+    # level 0 is covered by theorem C01_level0 about Parse.v / IR.v: tie Parse.v to Program::parse here
+    # (the IR.v side is tied by the per-level validation above)
+    plines = ["parse|%d|%s" % (c.w, ",".join(str(ord(ch)) for ch in c.src)) for c in cases]
+    impl = C.run_lines(hv, plines)
+    model = C.run_lines(driver, plines)
+    pbad = 0
+    for c, a, m, line in zip(cases, impl, model, plines):
+        if a != m:
+            pbad += 1
+            if pbad <= 2:
+                res.violation("Parse.v (the model theorem C01_level0 is about) and Program::parse produce different IR for %r: impl %s model %s" % (c.src[:120], a[:200], m[:200]),
+                              {"case": c.to_json(), "backend": "ir", "level": 0, "line": line, "implementation": a, "model": m,
+                               "correspondence": "Parse.v vs ir::Program::parse (theorem C01_level0 is about Parse.v)"}, no_failing_input=True)
+    return {"levels_above_3_compared": len(H) * 3, "levels_above_3_differences": bad,
+            "parser_model_compared": len(cases), "parser_model_differences": pbad,
+            "theorems": ["C01_level0", "C01_level0_states"]}
 
 
 def run_generic(res, mod):
@@ -65,6 +80,8 @@ def run_generic(res, mod):
         "distribution": P.distribution(cases),
         "generated": len(cases),
     })
+    if mod.PROP == "C01":
+        res.assumptions += ["level 0: theorem C01_level0 (Props/C01.v) proves, for every program, input, width >= 0 and I/O environment, that IR.ir_exec on Parse.parse's output has the canonical events whenever the canonical run terminates; its tie to the code is the structural comparison Parse.v vs Program::parse and the comparison IR.v vs the IR interpreter on every generated program"]
     res.assumptions += ["canonical semantics BF.v is the specification; the Rust optimiser/bytecode generator are not modelled: their output is validated per program through the model semantics (IR.v / BC.v)",
                         "programs whose canonical run exceeds the fuel are not judged here (C05 handles divergence)"]
     if broken and not res.violations:
